@@ -29,7 +29,7 @@ if REPO not in sys.path:
 COQ_TRUSTED_BASE = [
     "Coq 8.16.1 kernel (coqc, full .vo build; vm_compute used for finite obligations and witnesses; no native_compute)",
     "axioms: none declared by the development; Print Assumptions output per theorem is in coverage.assumptions_report",
-    "translators tools/gen_tables.py, tools/gen_static.py, tools/gen_state.py (regenerate coq/gen/*.v from /repo on every run)",
+    "translators tools/gen_tables.py, tools/gen_static.py, tools/gen_state.py, tools/gen_factory.py (regenerate coq/gen/*.v from /repo on every run)",
     "extraction with ExtrOcamlBasic only (bool, option, unit, list, prod, sumbool, sumor mapped to OCaml's; andb/orb inlined); no Extract Constant / Extract Inductive of our own; OCaml 4.13.1; ocaml/*_driver.ml",
     "correspondence check (differential testing of the hand-written model parts against CPython running /repo)",
     "modelled, not verified: CPython builtins and re engine, socket/ssl behaviour (recv returns a non-empty prefix or times out), reference server standing for real servers",
@@ -76,7 +76,7 @@ class Lock:
 def sync_generated():
     """Run the translators on the current working tree (only rewrites changed files)."""
     out = []
-    for tool in ("gen_tables.py", "gen_static.py", "gen_state.py"):
+    for tool in ("gen_tables.py", "gen_static.py", "gen_state.py", "gen_factory.py"):
         path = os.path.join(VERIF, "tools", tool)
         if not os.path.exists(path):
             continue
